@@ -35,10 +35,13 @@ type log struct {
 	sends        []*sendRec
 	nexts        []nextRec
 	closeCallSeq int // 0 = never
-	closeErr     error
-	inflight     int
-	sendsLeft    int
-	recvClosed   int
+	// event numbers at which the sender's Close, the receiver's Close and the cancellation of the
+	// senders' context had RETURNED (0 = never)
+	closeRetSeq, recvClosedRetSeq, sendCancelRetSeq int
+	closeErr                                        error
+	inflight                                        int
+	sendsLeft                                       int
+	recvClosed                                      int
 }
 
 func (l *log) tick() int { l.seq++; return l.seq }
@@ -82,6 +85,7 @@ func (p Params) Body() func() {
 		doClose := func() {
 			hx.Atomically(func() { l.closeCallSeq = l.tick(); l.closeErr = closeErr })
 			sender.Close(closeErr)
+			hx.Atomically(func() { l.closeRetSeq = l.tick() })
 		}
 		for _, vals := range p.Senders {
 			vals := vals
@@ -114,6 +118,7 @@ func (p Params) Body() func() {
 				defer wg.Done()
 				if p.Cancel == "send" {
 					sendCancel()
+					hx.Atomically(func() { l.sendCancelRetSeq = l.tick() })
 				} else {
 					nextCancel()
 				}
@@ -129,6 +134,7 @@ func (p Params) Body() func() {
 			if p.RecvThenClose >= 0 && calls == p.RecvThenClose {
 				hx.Atomically(func() { l.recvClosed = l.tick() })
 				receiver.Close()
+				hx.Atomically(func() { l.recvClosedRetSeq = l.tick() })
 				break
 			}
 			v, err := receiver.Next(nextCtx)
@@ -251,6 +257,16 @@ func check(p Params, l *log) {
 		}
 		if s.try && s.err != nil && s.ok {
 			hx.Fail("trysend-true-with-error", "TrySend(%d) returned (true, %v)", s.val, s.err)
+		}
+		// TrySend looks before it sends ("If the receiver is already closed, returns ErrClosedPipe. If
+		// ctx expires before x can be sent, returns ctx.Err()"): a call that BEGINS after the pipe was
+		// closed from either end, or after its context was cancelled, sends nothing
+		if s.try && s.ok {
+			for what, at := range map[string]int{"the sender's Close": l.closeRetSeq, "the receiver's Close": l.recvClosedRetSeq, "the cancellation of its context": l.sendCancelRetSeq} {
+				if at != 0 && s.beginSeq > at {
+					hx.Fail("trysend-sent-after-close", "TrySend(%d) began after %s had returned and still reported (true, nil)", s.val, what)
+				}
+			}
 		}
 	}
 	hx.Outcome("got=%v sends=%s end=%v", got, sendSummary(l), firstEnd != nil)
